@@ -595,8 +595,9 @@ def unit_edges(ctx):
     quick = ctx.tier == "quick"
     meshes = ["n432-c1", "n432-c1-abc"] if quick else list(LATTICE_MESHES)
     mname = ctx.choose("mesh", meshes)
-    kind = ctx.choose("field", ["v-tracer", "s-tracer"])
-    perm = ctx.choose("mapping", PERMS) if kind.startswith("v-") else (0, 1, 2)
+    slim = quick and mname != "n432-c1"  # quick: the renamed-axes mesh only with two vector mappings
+    kind = ctx.choose("field", ["v-tracer"] if slim else ["v-tracer", "s-tracer"])
+    perm = ctx.choose("mapping", [PERMS[0], PERMS[3]] if slim else PERMS) if kind.startswith("v-") else (0, 1, 2)
     sname, word = ctx.choose("start", EDGE_STARTS)
     startform = ctx.choose("startform", ["matrix"] if quick else ["matrix", "cycle"])
     ev = ctx.choose("event", EVENTS)
